@@ -11,6 +11,7 @@ ENGINES = {
     "p_code": "rapidcheck-generated programs vs static bytecode verifier / table-inverse invariants with dynamic cross-checks",
     "p_total": "rapidcheck-generated file maps (neighbours, soup, bytes, truncated constructs, broken maps) + exhaustive single-token edits; sanitizers + result-shape invariant",
     "p_dbg": "exhaustive short API histories + rapidcheck histories on generated programs vs an explicit stop/enable model over the recorded uninterrupted run",
+    "p_lr": "rapidcheck-generated small grammars x all bounded strings vs a chart-based CFG reference (membership, unique derivation fold, FIRST sets)",
     "p_scan": "rapidcheck tape generator + exhaustive enumerators vs reference lexer / include resolver",
 }
 
@@ -305,6 +306,28 @@ PROPS["C17"] = dict(
     level_text="Exploration with an exhaustive sub-space (all short histories on fixed programs); random long histories on generated programs.",
     level_note="trusted: read-only VM hooks for the hidden state",
     env={"VERIF_FAMILY": "C17"},
+)
+
+
+PROPS["C13"] = dict(
+    harness="p_lr",
+    phases=dict(quick=[rc(8, 500, env={"VERIF_C13_LEN": "5"}), rc(8, 1500, flavour="fast", seed_offset=100, env={"VERIF_C13_LEN": "5"})],
+                thorough=[rc(16, 4000, env={"VERIF_C13_LEN": "6"}), rc(16, 30000, flavour="fast", seed_offset=100, env={"VERIF_C13_LEN": "6"})]),
+    rule=("cases: random grammars with 1-4 non-terminals, 1-3 terminals (+ end marker), 1-7 productions with right sides of length 0-3 "
+          "(epsilon rules, explicit epsilon symbols, left/right recursion, unproductive and unreachable symbols), full or prefix mode; per "
+          "grammar ALL strings of length <=5 (quick) / <=6 (thorough) over the terminals 1..largest used, end-marked. Oracle: chart-based "
+          "reference recogniser with derivation counts: FIRST sets equal the fixpoint definition; if generation reports no conflict the "
+          "parser accepts w$ exactly when w (prefix mode: some prefix of w) is in L(G), the returned value is the fold of the unique "
+          "derivation tree with children in source order (obtained by reversing the popped vector) and every action ran once per tree "
+          "node; a grammar with a string that has two derivations must report a conflict. Nothing is asserted for unambiguous grammars "
+          "reported as conflicting. Non-trivial: conflict-free grammar that accepts a string of length >=4 or has an epsilon rule, or an "
+          "ambiguous grammar; distinct by hash of grammar+mode."),
+    min_nontrivial=dict(quick=1500, thorough=30000),
+    assumptions=["in prefix mode the folded value is only compared when exactly one prefix of the input is in the language",
+                 "ambiguity is detected on strings up to the enumerated length only"],
+    technique="property-based testing: rapidcheck-generated grammars x exhaustive bounded strings vs a reference chart recogniser (membership, derivation fold, FIRST sets)",
+    level_text="Exploration: thousands of random small grammars, each checked on every end-marked string up to length 5/6 in full or prefix mode against an independent recogniser.",
+    level_note="trusted: reference chart recogniser (harness/ref/ref_cfg.hpp)",
 )
 
 
